@@ -184,7 +184,7 @@ func expandC14(t *testing.T, seed uint64, tier string) []*core.Plan {
 		// default client settings; the witnesses must not notice
 		p.SetKnob("slow", 2)
 		p.SetKnob("defaults", 1)
-		p.Items = append(p.Items, core.Item{K: "hdeaf", P: 1, A: r.Range(2, 6)})
+		p.Items = append(p.Items, core.Item{K: "hdeaf", P: 1, A: r.Range(2, 6), B: r.Pick(0, 63, r.Intn(64))})
 		for i := 0; i < r.Range(4, 14); i++ {
 			p.Items = append(p.Items, wpub())
 		}
@@ -353,6 +353,11 @@ func runC14(t *testing.T, p *core.Plan) *core.Result {
 					pb.ID = pr.NextID()
 					pb.Message = packet.Message{Topic: "v/x", QOS: 1, Payload: MsgPayload(600000+k, 0)}
 					pr.Send(pb)
+					if it.B&(1<<uint(k)) != 0 {
+						// let the write-delay flush run into the full socket buffer
+						// before the next acknowledgement is due
+						w.Settle()
+					}
 				}
 				w.Settle()
 				res.Count("deaf_publishers", 1)
